@@ -287,6 +287,10 @@ def monitor(case, res, shared):
         return ('empty-node-list', 'initialisation succeeded with no node to place tasks on')
     if len(nl) > res['requested_nodes']:
         return ('more-nodes-than-requested', '%d nodes offered, %d requested' % (len(nl), res['requested_nodes']))
+    if cfg['nodes'] and len(nl) + len(al) + len(sl) > cfg['nodes']:
+        # (the node count the pilot was told - `nodes` of its configuration - is the count it asked for: backup nodes are extra)
+        return ('more-nodes-than-the-pilot-asked-for', '%d nodes offered (%d of them for agents / services), the pilot asked for %d (backup nodes: %d)'
+                % (len(nl) + len(al) + len(sl), len(al) + len(sl), cfg['nodes'], cfg['backup']))
     if not cfg['nodes'] and res['cores_per_node'] and case['kind'] != 'fork':
         # (Fork makes up its node list and needs the count before blocked cores are known: DESIGN.md 7.3)
         # a pilot sized by cores / GPUs: the node count derived for it covers them with what a node can really give
